@@ -13,7 +13,7 @@ if [ ! -d "$WT" ]; then
 fi
 cd "$WT" || exit 2
 for name in "$@"; do
-  d=/tmp/seed_out/$name
+  d=${SEED_DIR:-/tmp/seed_out}/$name
   git checkout -q -- . ; rm -f tests/demo.rs
   if ! git apply --check "$d/patch.diff" 2>/dev/null; then echo "$name: PATCH-DOES-NOT-APPLY" >> "$OUT"; continue; fi
   mkdir -p tests; cp "$d/demo.rs" tests/demo.rs
